@@ -48,26 +48,39 @@ try:
             c = c.strip("./")
             if c and os.path.isdir(os.path.join(wt, c)):
                 place = c; break
-    tags = "-tags purego" if "-tags purego" in (meta.get("demo_run", "") + hdr) else ""
+    text = meta.get("demo_run", "") + hdr
     mrun = re.search(r"-run[ =]+'?\"?(\^?Test\w+)", hdr + meta.get("demo_run", ""))
     runre = mrun.group(1) if mrun else "Test(Seed|C\\d+Demo)"
-    res["demo_dir"], res["demo_tags"] = place, tags
+    # the demo may need a particular build tag / GODEBUG / GOARCH: try the variants its text names
+    tagsets = [""] + sorted({"-tags " + t for t in re.findall(r"-tags[ =]+([\w,]+)", text)})
+    godebugs = [""] + sorted(set(re.findall(r"GODEBUG=([\w.=,]+)", text)))
+    goarchs = [""] + sorted(set(re.findall(r"GOARCH=(\w+)", text)))
+    variants = [(t, g, a) for t in tagsets for g in godebugs for a in goarchs]
+    res["demo_dir"] = place
     shutil.copy(demo, os.path.join(wt, place, "zz_seed_demo_test.go"))
-    democmd = "go test -vet=off -count=1 %s -run '%s' ./%s/" % (tags, runre, place)
-    extra = {}
-    mg = re.search(r"GODEBUG=([\w.=,]+)", meta.get("demo_run", ""))
-    if mg: extra["GODEBUG"] = mg.group(1)
-    ma = re.search(r"GOARCH=(\w+)", meta.get("demo_run", "") + hdr)
-    if ma: extra["GOARCH"] = ma.group(1)
-    rc0, out0 = sh(democmd, cwd=wt, extra=extra)
-    res["demo_clean_rc"] = rc0
+    def rundemo(v):
+        t, g, a = v
+        extra = {}
+        if g: extra["GODEBUG"] = g
+        if a: extra["GOARCH"] = a
+        return sh("go test -vet=off -count=1 %s -run '%s' ./%s/" % (t, runre, place), cwd=wt, extra=extra)
+    clean = {v: rundemo(v)[0] for v in variants}
     rc, out = sh("git apply %s" % os.path.join(d, "patch.diff"), cwd=wt)
     res["apply_rc"] = rc
     rc, out = sh("go build ./...", cwd=wt)
     res["build_rc"] = rc
-    rc1, out1 = sh(democmd, cwd=wt, extra=extra)
-    res["demo_patched_rc"] = rc1
-    res["demo_patched_tail"] = out1[-600:]
+    patched, tail = {}, ""
+    for v in variants:
+        prc, pout = rundemo(v)
+        patched[v] = prc
+        if prc != 0 and clean[v] == 0 and not tail:
+            tail = pout[-600:]
+    good = [v for v in variants if clean[v] == 0 and patched[v] != 0]
+    res["demo_variants"] = [{"tags": v[0], "godebug": v[1], "goarch": v[2], "clean_rc": clean[v], "patched_rc": patched[v]} for v in variants]
+    res["demo_clean_rc"] = 0 if good else min(clean.values())
+    res["demo_patched_rc"] = 1 if good else 0
+    res["demo_tags"] = good[0][0] if good else ""
+    res["demo_patched_tail"] = tail
     os.unlink(os.path.join(wt, place, "zz_seed_demo_test.go"))
     files = meta.get("files") or []
     pk = sorted({os.path.dirname(f) for f in files})
